@@ -117,16 +117,17 @@ def run(tier):
     n = BOUNDS[tier]
     out.rule = ('every program of <= %d parts over C12_Parts (14 part kinds) x on_error x mode x import success/failure reachable in DocRun.tla; '
                 'each terminal state (normal return or propagated exception) is one case' % n)
-    runs = [dict(label='C12/return', parts='C12_Parts', maxparts=n, onerrors=('return',), modes=('native', 'pytest'), limit=150000),
-            dict(label='C12/raise', parts='C12_Parts', maxparts=n, onerrors=('raise',), modes=('native',), limit=150000),
-            dict(label='C12/importfail', parts='C12_Parts', maxparts=2, onerrors=('return', 'raise'), modes=('native',), importoks=('FALSE',))]
+    runs = [dict(label='C12/return', parts='C12_Parts', maxparts=n, onerrors=('return',), modes=('native', 'pytest'), limit=150000, verbose='rotate'),
+            dict(label='C12/raise', parts='C12_Parts', maxparts=n, onerrors=('raise',), modes=('native',), limit=150000, verbose='rotate'),
+            dict(label='C12/importfail', parts='C12_Parts', maxparts=2, onerrors=('return', 'raise'), modes=('native',), importoks=('FALSE',), verbose='rotate')]
     runlib.docrun_check(out, runs, nontrivial_fn=nontrivial)
     runlib.deviation_must_fail(out, 'C12_Parts', 2, 'NoStdoutRestore')
     pathctx_phase(out, tier)
     out.assumptions = ['stderr is never swapped by the library; it is compared all the same',
-                       'the doctest replaces sys.stdout by assignment inside a part; closing the capture stream is outside the property']
+                       'the doctest replaces sys.stdout by assignment inside a part, or closes the capture stream (body kind closeout); verbosity 0..3 rotates '
+                       '(from 2 on the output is shown while it is captured)']
     # random longer programs (5..8 parts) from TLC's simulation mode over the same specification
-    runlib.simulate_replay(out, 'C12_Parts' + ' 5..8 parts', 'C12_Parts', 5, 8, 800 if tier == 'quick' else 15000, onerrors=('return', 'raise'), modes=('native', 'pytest'))
+    runlib.simulate_replay(out, 'C12_Parts' + ' 5..8 parts', 'C12_Parts', 5, 8, 800 if tier == 'quick' else 15000, onerrors=('return', 'raise'), modes=('native', 'pytest'), verbose='rotate')
     from . import tracelib
     tracelib.traced_replay(out, 'C12_Parts<=2', 'C12_Parts', 2, onerrors=('return', 'raise'), modes=('native', 'pytest'))
     return out.finish()
